@@ -11,6 +11,8 @@ IR (JSON-able, so that a case can be replayed from its record):
     "pbind": "imports" | "module"                where f3, f4, f5 (D / P / B names) come from
     "decoy": bool                                context also holds callables named h, x, u, ...
     "body": [node, ...]
+    "strict": bool                               (optional) Template(strict_undefined=True)
+    "via":  "lookup"                             (optional) built by a TemplateLookup given the same arguments
     "vals": {name: value}                        (optional) context values fixed by the program (nested-pipeline family)
     "sub":  prog                                 (optional) a second template; the context callable sub() renders it
   }
@@ -262,6 +264,8 @@ def print_program(prog):
         imports.append("from mc.c02_env import " + USER_NAMES)
     if imports:
         kw["imports"] = imports
+    if prog.get("strict"):
+        kw["strict_undefined"] = True
     return head + print_nodes(prog["body"], None if prog.get("attr_raw_page") else prog.get("attr_raw")), kw
 
 
